@@ -269,6 +269,16 @@ class ClassInfo:
                 return True
         return False
 
+    def metaclass(self, prj) -> Optional["ClassInfo"]:
+        """the project class given as `metaclass=` of this class or of a project base, if any"""
+        for c in self.mro():
+            for kw in getattr(c.node, "keywords", []):
+                if kw.arg == "metaclass":
+                    tgt = prj.resolve_name_in_module(c.module, attr_chain(kw.value) or "")
+                    if isinstance(tgt, ClassInfo):
+                        return tgt
+        return None
+
     def external_bases(self) -> list[str]:
         """names of base classes (of the class or a project ancestor) that are not classes of the project (ABC, Generic, Enum,
         rich.Table ...): behaviour may be inherited from them"""
